@@ -855,6 +855,7 @@ def correspond(ctx):
             ctx.problem("harness", "history runner crashed", "%r on %s" % (e, json.dumps(h)[:1500]))
             continue
         attach(trace, metas, run)
+        run.line_cache = (line, out, None)
         ctx._c05_runs.append((run, trace, tag))
         if touches_k1(run, trace):
             tag += "+k1domain"    # the model reproduces the code's Y = 0 convention (K1/K2); the search judges it
@@ -863,10 +864,13 @@ def correspond(ctx):
         for t in trace:
             ctx.hist("ecdh.op", t["op"][0])
             ctx.hist("ecdh.result", t["val"] if t["res"] == "err" else "ok")
-    c.run()
+    dis = c.run()
+    # a failure may be filed under K2 only if the model (which reproduces K2) agrees with the implementation on that history
+    ctx._c05_dis = set(d["line"] for d in dis)
 
 
 def search(ctx):
+    dis = getattr(ctx, "_c05_dis", set())
     runs = getattr(ctx, "_c05_runs", None)
     if runs is None:
         runs = []
@@ -883,7 +887,13 @@ def search(ctx):
             rec = {"input": run.hist, "observed": bad.get("observed"), "expected": bad.get("expected", bad["why"]),
                    "detail": {k: v for k, v in bad.items() if k not in ("known",)}}
             if "known" in bad:
-                rec["known"] = bad["known"]
+                # (a) structural predicate: checked in reference_check (cofactor != 1 and n*P has y = 0 / the product lands on
+                # the point of order 2); (b) the model gives the implementation's answers on this very history
+                line, _, _ = (run.line_cache if hasattr(run, "line_cache") else (None, None, None))
+                if line is not None and line in dis:
+                    rec["note"] = "2-torsion involved, but model and implementation disagree on this history: not filed under K2"
+                else:
+                    rec["known"] = bad["known"]
             ctx.violation(rec)
             if len([v for v in ctx.violations if "known" not in v]) >= 3:
                 break
